@@ -63,6 +63,9 @@ class LogRing(logging.Handler):
 _current = None     # the World whose server is being constructed / running
 
 
+_peer_seq = [itertools.count()]
+
+
 def _set_default(fn, name, value):
     """Set the default of one named positional parameter (by name, so that the harness does not depend on
     the rest of the signature)."""
@@ -107,6 +110,18 @@ def _install_capture():
         if _current is not None and _current.k.get('max_hist_row'):
             self.max_hist_row_entries = _current.k['max_hist_row']
     hmod.History.__init__ = h_init_wrap
+
+    # Peer objects live in sets and have no __hash__ of their own: the default one is derived from the memory
+    # address, so that set iteration order (which peer is verified / shuffled / advertised first) would vary
+    # from run to run.  Equality stays identity; the hash becomes the creation sequence number of the run.
+    import electrumx.lib.peer as peermod
+    p_init = peermod.Peer.__init__
+
+    def peer_init_wrap(self, *args, **kwargs):
+        self._sim_seq = next(_peer_seq[0])
+        p_init(self, *args, **kwargs)
+    peermod.Peer.__init__ = peer_init_wrap
+    peermod.Peer.__hash__ = lambda self: self._sim_seq
 
     N = ctlmod.Notifications
     o_block, o_mempool, o_start = N.on_block, N.on_mempool, N.start
@@ -259,6 +274,7 @@ class World:
         ODB.state = None
         ODB.chunk_size = self.k['chunk_size']
         dmod.Daemon.id_counter = itertools.count()
+        _peer_seq[0] = itertools.count(1000 * self.incarnations)
         sessmod.SessionBase.session_counter = itertools.count()
         sessmod.SessionBase.log_new = False
         random.seed(12345 + self.incarnations)
